@@ -43,12 +43,13 @@ EndOfRun(s, j) == CHOOSE e \in j..Len(s) : (e = Len(s) \/ (e + 1) \in Starts(s))
 SortedStarts(s) == LET S == Starts(s) IN [n \in 1..Cardinality(S) |-> CHOOSE j \in S : Cardinality({x \in S : x < j}) = n - 1]
 Runs(s) == LET st == SortedStarts(s) IN [g \in 1..Len(st) |-> [el |-> s[st[g]].el, ids |-> [k \in 1..(EndOfRun(s, st[g]) - st[g] + 1) |-> s[st[g] + k - 1].id]]]
 
-SUpload == /\ Upload
-           /\ LET nx == up' IN
-              /\ serialOf' = IF nx[2] = 1 THEN [serialOf EXCEPT ![nx[1]] = serialOf[nx[1]] + 1] ELSE serialOf
-              /\ content' = content @@ (<<nx[1], nx[2], serialOf'[nx[1]]>> :> ChunkRadials(nx[2], nextId))
-              /\ nextId' = nextId + Len(ChunkRadials(nx[2], nextId))
-           /\ UNCHANGED <<got, expect, scans>>
+SUploadWith(rs) == /\ Upload
+                   /\ LET nx == up' IN
+                      /\ serialOf' = IF nx[2] = 1 THEN [serialOf EXCEPT ![nx[1]] = serialOf[nx[1]] + 1] ELSE serialOf
+                      /\ content' = content @@ (<<nx[1], nx[2], serialOf'[nx[1]]>> :> rs)
+                      /\ nextId' = nextId + Len(rs)
+                   /\ UNCHANGED <<got, expect, scans>>
+SUpload == SUploadWith(ChunkRadials((IF up = NoPos THEN <<1, 1>> ELSE SuccPos(up))[2], nextId))
 
 (* the consumer decodes a delivered chunk; receiving the end chunk of a volume whose chunks 1..LastSeq
    all arrived in sequence triggers the volume scan *)
